@@ -167,18 +167,15 @@ def cir_moments(ctx: Ctx, recs: List[Dict[str, Any]]) -> None:
         dt = torch.tensor(-math.log(E) / ka, dtype=DT)
         detail = {"theta": th, "kappa": ka, "sigma": sigma, "dt": float(dt), "exp(-kappa dt)": E, "from": v, "branch": r["branch"], "psi": psi,
                   "conditional_mean": m, "conditional_variance": s2}
-        if r["branch"] == "quadratic":
-            Z = torch.tensor([[z, 0.0] for z in zn], dtype=DT)
-            U = torch.full_like(Z, 0.5)
-            w = torch.tensor(zw, dtype=DT)
-            atom = 0.0
-        else:
-            p, beta = frf(r["p"]), frf(r["beta"])
-            us = [1 - (1 - p) * math.exp(-y) for y in yn] + [p / 2, p * (1 - 1e-9), p + (1 - p) * 1e-6]
-            U = torch.tensor([[u, 0.5] for u in us], dtype=DT)
-            Z = torch.zeros_like(U)
-            w = torch.tensor([(1 - p) * x for x in yw] + [0.0, 0.0, 0.0], dtype=DT)
-            atom = p
+        # Both kinds of node are supplied at once (3 normals x 2 uniforms, then three probes around the atom), and the branch the
+        # code took is read off its output: any switching level in [1, 2] is a correct scheme, so the record's branch (the
+        # code's present level 3/2) is not imposed.
+        psi_ok_exp = psi >= 1.0
+        p = (psi - 1) / (psi + 1) if psi_ok_exp else 0.0
+        u_nodes = [1 - (1 - p) * math.exp(-y) for y in yn]
+        rows = [(z, u) for z in zn for u in u_nodes] + [(0.0, p / 2), (0.0, p * (1 - 1e-9)), (0.0, p + (1 - p) * 1e-6)]
+        Z = torch.tensor([[z, 0.0] for z, _ in rows], dtype=DT)
+        U = torch.tensor([[u, 0.5] for _, u in rows], dtype=DT)
         for gen in ("generate_cir", "generate_heston"):
             try:
                 with patched(torch, "randn_like", lambda t, **k: Z.clone().to(t.dtype)), patched(torch, "rand_like", lambda t, **k: U.clone().to(t.dtype)):
@@ -191,21 +188,81 @@ def cir_moments(ctx: Ctx, recs: List[Dict[str, Any]]) -> None:
                 continue
             ctx.count(n=1)
             V = out[:, 1]
-            mean = float((w * V).sum())
-            second = float((w * V * V).sum())
-            var = second - mean * mean
-            d = {**detail, "generator": gen, "one_step_values": V.tolist(), "observed_mean": mean, "observed_variance": var}
+            grid = V[:6].reshape(3, 2)                                 # [normal node, uniform node]
+            took = "quadratic" if bool((grid[:, 0] - grid[0, 0]).abs().max() > 0) else "exponential"
+            if took == "quadratic":
+                w = torch.tensor(zw, dtype=DT)
+                vals = grid[:, 0]
+            else:
+                w = torch.tensor([(1 - p) * x for x in yw], dtype=DT)
+                vals = grid[0, :]
+            mean = float((w * vals).sum())
+            var = float((w * vals * vals).sum()) - mean * mean
+            d = {**detail, "generator": gen, "branch_taken": took, "one_step_values": V.tolist(), "observed_mean": mean, "observed_variance": var}
             if not bool(V.isfinite().all()) or not (abs(mean - m) <= 1e-9 * (abs(m) + 1e-12)):
-                ctx.violation(f"cir:{r['branch']}:mean", f"one {r['branch']} step of the CIR scheme does not have the mean-reverting conditional mean theta + (v - theta) exp(-kappa dt)", d)
+                ctx.violation(f"cir:{took}:mean", f"one {took} step of the CIR scheme does not have the mean-reverting conditional mean theta + (v - theta) exp(-kappa dt)", d)
             elif not (abs(var - s2) <= 1e-8 * (s2 + 1e-12 * m * m)):
-                ctx.violation(f"cir:{r['branch']}:variance", f"one {r['branch']} step of the CIR scheme does not have the conditional variance of the CIR process", d)
-            if r["branch"] == "exponential":
-                z0, zlo, zhi = float(V[2]), float(V[3]), float(V[4])
+                ctx.violation(f"cir:{took}:variance", f"one {took} step of the CIR scheme does not have the conditional variance of the CIR process", d)
+            if took == "exponential" and psi_ok_exp and s2 > 0:
+                z0, zlo, zhi = float(V[6]), float(V[7]), float(V[8])
                 if z0 != 0.0 or zlo != 0.0 or not (zhi > 0.0):
-                    ctx.violation("cir:exponential:atom", "the exponential branch does not put the mass p = (psi - 1)/(psi + 1) at zero", {**d, "p": atom, "at_p/2": z0, "just_below_p": zlo, "just_above_p": zhi})
+                    ctx.violation("cir:exponential:atom", "the exponential branch does not put the mass p = (psi - 1)/(psi + 1) at zero", {**d, "p": p, "at_p/2": z0, "just_below_p": zlo, "just_above_p": zhi})
+
+
+def heston_steps(ctx: Ctx, recs: List[Dict[str, Any]]) -> None:
+    """The log-price step of generate_heston / HestonStock on supplied normals: with the variance move (v -> v') produced by the
+    code's own variance step, ln S' - ln S must be k0 + k1 v + k2 v' + sqrt(k3 v + k4 v') Z with the coefficients of Heston.tla."""
+    from pfhedge.instruments import HestonStock
+    from pfhedge.stochastic import generate_heston
+    zs_var = torch.tensor([[-1.0, 0.0], [0.0, 0.0], [1.5, 0.0], [0.5, 0.0]], dtype=DT)
+    zs_spot = torch.tensor([[0.0, 0.0], [2.0, 0.0], [-1.0, 0.0], [0.5, 0.0]], dtype=DT)
+    us = torch.tensor([[0.3, 0.5], [0.9, 0.5], [0.6, 0.5], [0.99, 0.5]], dtype=DT)
+    for r in recs:
+        rho, ka, th, sg, dt = (frf(r[k]) for k in ("rho", "kappa", "theta", "sigma", "dt"))
+        k0, k1, k2, k3, k4 = (frf(x) for x in r["k"])
+        for v0 in (th, 4 * th, th / 16):
+            detail = {"rho": rho, "kappa": ka, "theta": th, "sigma": sg, "dt": dt, "v0": v0, "coefficients k0..k4": [k0, k1, k2, k3, k4]}
+            for how in ("generate_heston", "HestonStock"):
+                calls = iter([zs_var, zs_spot])                    # first randn_like: variance scheme; second: the price
+                try:
+                    with patched(torch, "randn_like", lambda t, **k: next(calls).clone().to(t.dtype)), patched(torch, "rand_like", lambda t, **k: us.clone().to(t.dtype)):
+                        if how == "generate_heston":
+                            out = generate_heston(4, 2, init_state=(2.0, v0), kappa=ka, theta=th, sigma=sg, rho=rho, dt=dt, dtype=DT)
+                            spot, var = out.spot, out.variance
+                        else:
+                            st = HestonStock(kappa=ka, theta=th, sigma=sg, rho=rho, dt=dt, dtype=DT)
+                            st.simulate(n_paths=4, time_horizon=dt, init_state=(2.0, v0))
+                            spot, var = st.spot, st.variance
+                except Exception as ex:
+                    ctx.violation(f"heston:{how}:raises", f"{how} raised {type(ex).__name__} on supplied normals", {**detail, "error": repr(ex)[:200]})
+                    continue
+                ctx.count(n=1)
+                if tuple(spot.shape) != (4, 2):
+                    ctx.violation(f"heston:{how}:shape", f"{how}: shape {tuple(spot.shape)} for 4 paths and 2 time points", detail)
+                    continue
+                v1 = var[:, 1]
+                got = (spot[:, 1] / spot[:, 0]).log()
+                want = k0 + k1 * v0 + k2 * v1 + (k3 * v0 + k4 * v1).clamp(min=0).sqrt() * zs_spot[:, 0]
+                if not bool(((got - want).abs() <= 1e-11 * (1 + want.abs())).all()):
+                    ctx.violation("heston:log-return", "the Heston log-price step is not (rho/sigma)(v' - v - kappa theta dt) + (kappa rho/sigma - 1/2) dt (v + v')/2 + sqrt((1 - rho^2) dt (v + v')/2) Z",
+                                  {**detail, "via": how, "v1": v1.tolist(), "normals": zs_spot[:, 0].tolist(), "observed_log_return": got.tolist(), "expected": want.tolist()})
 
 
 def check(ctx: Ctx) -> None:
+    hes = ctx.tlc("MC_Heston", "MC_Heston.cfg", workers=4)
+    hrecs = [r for r in hes.records if r.get("rec") == "heston_step"]
+    if len(hrecs) < 100:
+        raise MachineryError("Heston.tla: too few parameter points")
+    heston_steps(ctx, hrecs)
+    for r in hrecs:
+        ctx.distinct.add(json.dumps(["heston", r["rho"], r["kappa"], r["theta"], r["sigma"], r["dt"]]))
+    ctx.sample(hrecs[7])
+    probe1 = Ctx.__new__(Ctx)
+    probe1.__dict__.update({"_per_key": {}, "violations": [], "findings": [], "known_hits": {}, "evaluations": 0, "distinct": set()})
+    badh = json.loads(json.dumps(next(r for r in hrecs if r["rho"][0] != 0)))
+    badh["k"][2] = [-badh["k"][2][0], badh["k"][2][1]]                 # the return answers a variance move with the wrong sign
+    heston_steps(probe1, [badh])
+    ctx.selftest("a Heston step record whose k2 has the wrong sign is rejected", any(v["key"] == "heston:log-return" for v in probe1.violations))
     cir = ctx.tlc("MC_CIR", "MC_CIR.cfg", workers=4)
     if cir.actions.get("Step", [0, 0])[1] == 0 or len(cir.records) < 100:
         raise MachineryError("CIR.tla: moment machine not exercised")
@@ -238,9 +295,9 @@ def check(ctx: Ctx) -> None:
     bad[2]["path"][-1][1] += 1                                   # one Brownian increment too many
     replay(probe, bad)
     ctx.selftest("a specification path with a corrupted Brownian sum is rejected", any(v["key"].startswith("scheme:gbm") for v in probe.violations))
-    ctx.traces_validated = len(recs) + len(crecs)
+    ctx.traces_validated = len(recs) + len(crecs) + len(hrecs)
     ctx.exhaustive = True
-    ctx.rule = ("every parameter point of CIR.tla (theta, kappa, sigma^2, exp(-kappa dt), starting value; both branches) with one real step on quadrature nodes, generate_cir and generate_heston; "
+    ctx.rule = ("every parameter point of CIR.tla (theta, kappa, sigma^2, exp(-kappa dt), starting value; both branches) with one real step on quadrature nodes, generate_cir and generate_heston; every parameter point of Heston.tla (rho, kappa, theta, sigma, dt) x 3 starting variances with one real log-price step on supplied normals; "
                 "every sequence of supplied normals z in {-1,0,1,2}^(T-1) (T=4; Merton: z, y in {-1,1}, jump counts in {0,1,4}, T=3) for 6 schemes, "
                 "replayed with 2-5 parameter sets each; distinct = distinct (scheme, normals)")
     ctx.assumptions += ["Vasicek paths are compared with relative tolerance 1e-6: the generator converts Python-float parameters through float32",
